@@ -130,3 +130,11 @@ Example C04_witness_sanity :
   serial_like toctou_prefix [toctou_a; toctou_b] [0; 0; 0; 1; 1; 1] = true /\
   serial_like toctou_prefix [toctou_a; toctou_b] [1; 1; 1; 0; 0; 0] = true.
 Proof. split; vm_compute; reflexivity. Qed.
+
+(* THE PROGRAMS ABOVE ARE THE SOURCE.  The handler programs `handler r` that the theorems of this file run (under the interleaving /
+   crash semantics) are the programs regenerated from vizier_service.py at every run (see C01_source_handlers_are_the_model;
+   equality through the standard library's functional extensionality). *)
+From VZ Require Proofs.AllHandlersP.
+Theorem C04_source_handlers_equal_the_model : forall r, AllHandlersP.handler_from_source_all r = Service.handler r.
+Proof. exact AllHandlersP.all_source_handlers_equal_the_model. Qed.
+Print Assumptions C04_source_handlers_equal_the_model.
